@@ -1101,3 +1101,69 @@ def rule_last_block_needs_no_successor(ctx):
             ctx.violated("LASTBLOCK", key, f.where(node_line(nd)), "a block's length is replaced by `total - accumulated` without a test of the table's `nextref`: the last slot of every table that has a successor is taken for the last block of the element")
     ctx.floor("LASTBLOCK", 1, n, "(corrections of a block length from the element total)")
     return n
+
+
+# ---------------------------------------------------------------------------------------------------------------------
+def rule_member_refs_reset_per_group(ctx):
+    """ITEMREF (C15): hdf_read_ndgs turns every old-style data group into a variable.  For each group it walks the members (DFdiget) and
+    notes the references of the optional ones — label, unit, format strings, scales, data — in locals that are used after the
+    walk.  A group that lacks a member must not see the previous group's reference: every local that receives a member
+    reference inside the walk is given its start value in the per-group loop, before the walk.  Cleared once before that loop
+    instead, the second data set inherits the first one's label, unit and format."""
+    prog = ctx.prog
+    f = prog.func("hdf_read_ndgs")
+    if f is None or not f.raw.get("ast"):
+        ctx.unrecognised("ITEMREF", "ITEMREF:hdf_read_ndgs", "-", "hdf_read_ndgs not found")
+        return 0
+    n = 0
+    for lp, st in loops_of(f):
+        body = loop_body(lp)
+        # is this the member walk?  its condition or body calls DFdiget(.., &T, &R)
+        R = None
+        exprs = [e for e, _n in seq_of(body)]
+        if lp[0] in ("while",) and lp[1] is not None:
+            exprs.append(lp[1])
+        for e in exprs:
+            for c in calls_in(e, True):
+                if c[1] == "DFdiget" and len(c[3]) > 2 and kind(strip(c[3][2])) == "addr" and kind(strip(strip(c[3][2])[1])) == "var":
+                    R = strip(strip(c[3][2])[1])[1]
+        if R is None:
+            continue
+        inner_has = any(any(c[1] == "DFdiget" for e, _n in seq_of(loop_body(l2)) for c in calls_in(e, True)) or (l2[0] == "while" and l2[1] is not None and any(c[1] == "DFdiget" for c in calls_in(l2[1], True)))
+                        for l2, s2 in loops_of(f) if any(s is lp for s in s2))
+        if inner_has:
+            continue  # an enclosing loop: handled as the outer loop of the walk below
+        refs = set()
+        for e, _n in seq_of(body):
+            for x in walk(e, True):
+                if x[0] == "asg" and x[1] == "=" and kind(strip(x[2])) == "var" and kind(strip(x[3])) == "var" and strip(x[3])[1] == R:
+                    refs.add(strip(x[2])[1])
+        outer = [s_ for s_ in st if s_[0] in ("for", "while", "do")]
+        if not refs or not outer:
+            continue
+        ob = loop_body(outer[-1])
+        kids = ob[1] if ob and ob[0] == "block" else [ob]
+        # the child of the outer body that contains the walk
+        pos = None
+        for i, k in enumerate(kids):
+            hit = []
+            ast_walk(k, lambda nd, s9: (hit.append(1) if nd is lp else None, True)[1])
+            if hit:
+                pos = i
+        if pos is None:
+            continue
+        for v in sorted(refs):
+            n += 1
+            key = "ITEMREF:hdf_read_ndgs:%s" % v
+            reset = False
+            for k0 in kids[:pos]:
+                if k0[0] == "s":
+                    for x in walk(k0[1], True):
+                        if x[0] == "asg" and x[1] == "=" and kind(strip(x[2])) == "var" and strip(x[2])[1] == v:
+                            reset = True
+            if reset:
+                ctx.holds("ITEMREF", key, f.where(node_line(lp)), "`%s` gets its start value for every group before the member walk" % v, nontrivial=True)
+            else:
+                ctx.violated("ITEMREF", key, f.where(node_line(lp)), "`%s` receives a member reference inside the walk over a group's members and is used afterwards, but the per-group loop does not give it a start value: a group without that member inherits the previous group's reference" % v)
+    ctx.floor("ITEMREF", 4, n, "(locals that receive a member reference in the group walk)")
+    return n
